@@ -544,9 +544,9 @@ def fam_fft(tier, kind=R):
     c = lambda prim, lab, f, args, k=0: Config(prim, lab, f, args, k)
     norms = [None, "ortho", "forward", "backward"]
     for n in ("fft", "ifft"):
-        for s in [(4,), (2,), (2, 4), (1,), (4, 2)]:
+        for s in [(4,), (2,), (2, 4), (1,), (4, 2), (3,)] + ([(6,), (2, 3)] if tier == "thorough" else []):
             yield c(n, "fft.%s(x)" % n, lambda np, x, _n=n: getattr(np.fft, _n)(x), [kind(*s)])
-            for nn in [1, 2, 4]:
+            for nn in [1, 2, 4, 3] + ([6] if tier == "thorough" else []):
                 yield c(n, "fft.%s(x,%d)" % (n, nn), lambda np, x, _n=n, _k=nn: getattr(np.fft, _n)(x, _k), [kind(*s)])
                 yield c(n, "fft.%s(x,n=%d)" % (n, nn), lambda np, x, _n=n, _k=nn: getattr(np.fft, _n)(x, n=_k), [kind(*s)])
             for ax in range(-len(s), len(s)):
@@ -555,7 +555,7 @@ def fam_fft(tier, kind=R):
             for nm in norms[1:]:
                 yield c(n, "fft.%s(x,norm=%r)" % (n, nm), lambda np, x, _n=n, _m=nm: getattr(np.fft, _n)(x, norm=_m), [kind(*s)])
     for n in ("fft2", "ifft2", "fftn", "ifftn"):
-        for s in [(2, 2), (2, 4), (2, 2, 2), (4, 1)]:
+        for s in [(2, 2), (2, 4), (2, 2, 2), (4, 1), (3, 2)]:
             yield c(n, "fft.%s(x)" % n, lambda np, x, _n=n: getattr(np.fft, _n)(x), [kind(*s)])
             for ss in [(2, 2), (4, 2), (1, 2), (2, 4)]:
                 yield c(n, "fft.%s(x,s=%r)" % (n, ss), lambda np, x, _n=n, _s=ss: getattr(np.fft, _n)(x, s=_s), [kind(*s)])
@@ -1057,6 +1057,9 @@ def container_grid(tier):
     c("output nested via constructors", lambda np, t: T(np)((L(np)([t[0] * 2.0, t[1] * t[0]]), t[1])), [(R(2), R(2))])
     c("inner tuple shared by three outer slots", lambda np, x: (lambda t: L(np)([t, t, t]))(T(np)((np.sin(x), 2.0 * x))), [R(2)])
     c("inner list shared by four dict entries", lambda np, x: (lambda t: Dd(np)(a=t, b=t, c=t, d=t))(L(np)([x * x, x + 1.0])), [R(2)])
+    c("slice of a traced tuple returned inside the output AND an element of it used again", lambda np, t: t[1:] + (np.sin(t[1]) * t[2],), [(R(2), R(2), R(2))])
+    c("overlapping slices of a traced list", lambda np, l: T(np)((l[:2][1] * 2.0, l[1:][0] * l[1:][1])), [[R(2), R(2), R(2)]])
+    c("slice output plus integer index output", lambda np, t: T(np)((t[:2], t[0] * t[1])), [(R(2), R(2), R(2))])
     c("container in, container out", lambda np, d: T(np)((d["a"] * d["b"], d["b"] + 1.0)), [{"a": R(2), "b": R(2)}])
     return _uniq(out)
 
